@@ -111,7 +111,9 @@ pub fn cmd_worker(a: &[String]) {
     let deadline: u64 = a[6].parse().unwrap();
     let maxk: u64 = a[7].parse().unwrap();
     let core: usize = a[8].parse().unwrap();
-    pin_to_core(core);
+    if !cfg!(feature = "real") {
+        pin_to_core(core);
+    }
     crate::util::quiet_panics();
     {
         let prop = prop.clone();
@@ -246,7 +248,10 @@ pub fn eval_subprocess(r: &Replay, tag: &str) -> Option<EvalOut> {
     let _ = std::fs::create_dir_all(&dir);
     let path = format!("{}/cand-{}-{}.json", dir, std::process::id(), tag);
     std::fs::write(&path, serde_json::to_string(r).unwrap()).ok()?;
-    let exe = std::env::current_exe().ok()?;
+    let mut exe = std::env::current_exe().ok()?;
+    if r.engine == "R" {
+        exe = std::path::PathBuf::from(std::env::var("VERIF_BIN_REAL").ok()?);
+    }
     let out = Command::new(exe).arg("eval").arg(&path).stderr(Stdio::null()).output().ok()?;
     let _ = std::fs::remove_file(&path);
     let s = String::from_utf8_lossy(&out.stdout);
@@ -397,8 +402,8 @@ struct WorkerSlot {
     done: bool,
 }
 
-fn spawn_worker(tx: &mpsc::Sender<Msg>, i: usize, prop: &str, tier: &str, base: u64, stride: u64, startk: u64, deadline: u64, maxk: u64) {
-    let exe = std::env::current_exe().unwrap();
+#[allow(clippy::too_many_arguments)]
+fn spawn_worker(exe: &std::path::Path, tx: &mpsc::Sender<Msg>, i: usize, prop: &str, tier: &str, base: u64, stride: u64, startk: u64, deadline: u64, maxk: u64) {
     let mut ch = Command::new(exe)
         .args([
             "worker",
@@ -452,32 +457,28 @@ fn match_known(kfs: &[Value], prop: &str, class: &str, msg: &str) -> Option<Stri
     None
 }
 
-pub fn cmd_check(prop: &str, tier: &str) {
-    let tier = std::env::var("VERIF_TIER").ok().filter(|t| t == "quick" || t == "thorough").unwrap_or_else(|| tier.to_string());
-    let thorough = tier == "thorough";
-    let seed: u64 = std::env::var("VERIF_SEED").ok().and_then(|s| s.parse().ok()).unwrap_or(DEFAULT_SEED);
-    let budget_s: u64 = std::env::var("VERIF_BUDGET_S").ok().and_then(|s| s.parse().ok()).unwrap_or(if thorough { 300 } else { 20 });
-    let jobs: usize = std::env::var("VERIF_JOBS").ok().and_then(|s| s.parse().ok()).unwrap_or_else(|| num_cpus().min(16));
-    let maxk: u64 = std::env::var("VERIF_MAX_SEEDS").ok().and_then(|s| s.parse().ok()).unwrap_or(u64::MAX / 4);
-    println!("VERIF_SEED={} property={} tier={} engine=S jobs={} budget_s={}", seed, prop, tier, jobs, budget_s);
-    if family_of(prop) == "?" {
-        eprintln!("no check registered for {}", prop);
-        std::process::exit(2);
-    }
-    let t0 = Instant::now();
-    let deadline = now_ms() + budget_s * 1000;
-    // derive the base of the seed sequence from VERIF_SEED and the property
-    let base = crate::res::mix(seed, crate::plan::fnv(prop.as_bytes()));
+/// One search phase: `jobs` worker processes of `exe`, restarted after a run that ended its
+/// process (deadlock), until the deadline.
+#[allow(clippy::too_many_arguments)]
+fn run_phase(
+    exe: &std::path::Path,
+    jobs: usize,
+    prop: &str,
+    tier: &str,
+    base: u64,
+    deadline: u64,
+    budget_s: u64,
+    maxk: u64,
+    stats: &mut Stats,
+    found: &mut BTreeMap<String, Replay>,
+    harness_errors: &mut Vec<String>,
+    total_found: &mut u64,
+) {
     let (tx, rx) = mpsc::channel::<Msg>();
     let mut slots: Vec<WorkerSlot> = (0..jobs).map(|_| WorkerSlot { next_k: 0, done: false }).collect();
     for i in 0..jobs {
-        spawn_worker(&tx, i, prop, &tier, base, jobs as u64, 0, deadline, maxk);
+        spawn_worker(exe, &tx, i, prop, tier, base, jobs as u64, 0, deadline, maxk);
     }
-    let mut stats = Stats::default();
-    let mut found: BTreeMap<String, Replay> = BTreeMap::new();
-    let mut harness_errors: Vec<String> = Vec::new();
-    let mut fatal: Vec<Value> = Vec::new();
-    let mut total_found = 0u64;
     let mut live = jobs;
     while live > 0 {
         let m = match rx.recv_timeout(Duration::from_secs(budget_s + 120)) {
@@ -494,14 +495,13 @@ pub fn cmd_check(prop: &str, tier: &str) {
                         let k = v["k"].as_u64().unwrap_or(0);
                         slots[i].next_k = k + 1;
                         if let Ok(r) = serde_json::from_value::<Replay>(v["replay"].clone()) {
-                            total_found += 1;
+                            *total_found += 1;
                             found.entry(r.class.clone()).or_insert(r);
                         }
                     }
                 } else if let Some(j) = l.strip_prefix("FATAL ") {
                     if let Ok(v) = serde_json::from_str::<Value>(j) {
                         slots[i].next_k = v["k"].as_u64().unwrap_or(0) + 1;
-                        fatal.push(v);
                     }
                 } else if let Some(j) = l.strip_prefix("HARNESS ") {
                     harness_errors.push(j.to_string());
@@ -516,7 +516,7 @@ pub fn cmd_check(prop: &str, tier: &str) {
             Msg::Exit(i, code) => {
                 if !slots[i].done && code == 3 && now_ms() < deadline && found.len() < 4 {
                     // the run deadlocked and ended its process: carry on after that seed
-                    spawn_worker(&tx, i, prop, &tier, base, jobs as u64, slots[i].next_k, deadline, maxk);
+                    spawn_worker(exe, &tx, i, prop, tier, base, jobs as u64, slots[i].next_k, deadline, maxk);
                 } else {
                     if !slots[i].done && code != 3 {
                         harness_errors.push(format!("worker {} ended with status {} without statistics", i, code));
@@ -526,6 +526,46 @@ pub fn cmd_check(prop: &str, tier: &str) {
             }
         }
     }
+}
+
+pub fn cmd_check(prop: &str, tier: &str) {
+    let tier = std::env::var("VERIF_TIER").ok().filter(|t| t == "quick" || t == "thorough").unwrap_or_else(|| tier.to_string());
+    let thorough = tier == "thorough";
+    let seed: u64 = std::env::var("VERIF_SEED").ok().and_then(|s| s.parse().ok()).unwrap_or(DEFAULT_SEED);
+    let budget_s: u64 = std::env::var("VERIF_BUDGET_S").ok().and_then(|s| s.parse().ok()).unwrap_or(if thorough { 300 } else { 20 });
+    let jobs: usize = std::env::var("VERIF_JOBS").ok().and_then(|s| s.parse().ok()).unwrap_or_else(|| num_cpus().min(16));
+    let maxk: u64 = std::env::var("VERIF_MAX_SEEDS").ok().and_then(|s| s.parse().ok()).unwrap_or(u64::MAX / 4);
+    println!("VERIF_SEED={} property={} tier={} engine=S jobs={} budget_s={}", seed, prop, tier, jobs, budget_s);
+    if family_of(prop) == "?" {
+        eprintln!("no check registered for {}", prop);
+        std::process::exit(2);
+    }
+    let t0 = Instant::now();
+    let deadline = now_ms() + budget_s * 1000;
+    // derive the base of the seed sequence from VERIF_SEED and the property
+    let base = crate::res::mix(seed, crate::plan::fnv(prop.as_bytes()));
+    let mut stats = Stats::default();
+    let mut found: BTreeMap<String, Replay> = BTreeMap::new();
+    let mut harness_errors: Vec<String> = Vec::new();
+    let mut total_found = 0u64;
+    let own = std::env::current_exe().unwrap();
+    run_phase(&own, jobs, prop, &tier, base, deadline, budget_s, maxk, &mut stats, &mut found, &mut harness_errors, &mut total_found);
+    let s_runs = stats.runs;
+    // engine R: the same scenarios and oracles on real rayon (threads parked by a controller)
+    let mut r_runs = 0;
+    if let Some(real) = std::env::var("VERIF_BIN_REAL").ok().filter(|p| std::path::Path::new(p).exists()) {
+        if matches!(prop, "C01" | "C02" | "C03" | "C04" | "C07" | "C11" | "C12" | "C14") {
+            let rb: u64 = std::env::var("VERIF_BUDGET_R_S").ok().and_then(|s| s.parse().ok()).unwrap_or(if thorough { 120 } else { 8 });
+            let rjobs: usize = std::env::var("VERIF_JOBS_R").ok().and_then(|s| s.parse().ok()).unwrap_or(4);
+            let dl = now_ms() + rb * 1000;
+            // a different part of the seed sequence than engine S explores
+            run_phase(std::path::Path::new(&real), rjobs, prop, &tier, base ^ 0x52_0000_0000, dl, rb, maxk, &mut stats, &mut found, &mut harness_errors, &mut total_found);
+            r_runs = stats.runs - s_runs;
+            Stats::bump(&mut stats.extra, "engine_R_runs_on_real_rayon", r_runs);
+            Stats::bump(&mut stats.extra, "engine_S_runs", s_runs);
+        }
+    }
+    let _ = r_runs;
     // "with and without the `parallel` feature", "in every process and feature configuration"
     if prop == "C19" || prop == "C05" {
         let count = if thorough { 30_000 } else { 3_000 };
@@ -541,8 +581,6 @@ pub fn cmd_check(prop: &str, tier: &str) {
         }
     }
     let search_s = t0.elapsed().as_secs_f64();
-    // deadlocks / step limits reported by the fatal handler: re-derive the record by replaying the seed
-    let _ = &fatal;
     // minimise, confirm, report
     let kfs = known_findings();
     let mut violations = 0;
@@ -570,6 +608,27 @@ pub fn cmd_check(prop: &str, tier: &str) {
             println!("  class={} seed={} : {}", small.class, small.seed, small.msg);
         } else {
             harness_errors.push(format!("violation {} at seed {} did not reproduce from its replay file {}", small.class, small.seed, path));
+        }
+    }
+    // Miri tier (thorough, C08 / C09 / C17): run by bin/check before this process
+    if let Ok(mj) = std::env::var("VERIF_MIRI_JSON") {
+        if let Ok(t) = std::fs::read_to_string(&mj) {
+            if let Ok(v) = serde_json::from_str::<Value>(&t) {
+                let exit = v["miri_exit"].as_i64().unwrap_or(-1);
+                let problems = v["problem_lines"].as_u64().unwrap_or(0);
+                Stats::bump(&mut stats.extra, "miri_seeds", v["miri_seeds"].as_u64().unwrap_or(0));
+                Stats::bump(&mut stats.extra, "miri_programs_completed", v["programs_completed"].as_u64().unwrap_or(0));
+                Stats::bump(&mut stats.extra, "miri_wall_s", v["wall_s"].as_u64().unwrap_or(0));
+                if exit != 0 || problems > 0 {
+                    if v["programs_completed"].as_u64().unwrap_or(0) == 0 && problems == 0 {
+                        harness_errors.push(format!("the Miri tier did not run (exit {}), see {}", exit, v["log"]));
+                    } else {
+                        violations += 1;
+                        vio_lines.push(format!("VIOLATION property={} replay={}", prop, v["log"].as_str().unwrap_or("")));
+                        println!("  class=miri-tier : Miri reported undefined behaviour, a data race or a failed oracle (exit {}, {} problem lines)", exit, problems);
+                    }
+                }
+            }
         }
     }
     let wall = t0.elapsed().as_secs_f64();
